@@ -44,15 +44,23 @@ Section Scratch.
 
   (* what the argument needs of a formula: it passes errors on, or no cell reaches a cycle at all (then
      no circular-reference error is ever produced, and handlers of other errors are harmless) *)
-  Definition tame (t : itree) : Prop := strict t \/ forall c, evaluable P v0 c.
+  Definition tame (t : itree) : Prop := cre_strict t \/ forall c, evaluable P v0 c.
+
+  Lemma strict_cre_strict t : strict t -> cre_strict t.
+  Proof.
+    induction 1 as [z|e|c k He Hz IH]; constructor; [apply He|].
+    intros [z|e]; [apply IH | rewrite He; constructor].
+  Qed.
 
   Lemma tame_k c k v : tame (Read c k) -> tame (k v).
-  Proof. intros [H|H]; [left; eapply strict_k; exact H | right; exact H]. Qed.
+  Proof.
+    intros [H|H]; [left | right; exact H]. inversion H as [| |c' k' He Hv]; subst. apply Hv.
+  Qed.
 
   Lemma tame_cre c k : tame (Read c k) -> reaches_cycle P v0 c -> k (VErr CircularRef) = Raise CircularRef.
   Proof.
     intros [H|H] R.
-    - inversion H as [| |c' k' He Hz]; subst. apply He.
+    - inversion H as [| |c' k' He Hz]; subst. exact He.
     - destruct (H c) as [n [v Hn]]. rewrite R in Hn. discriminate.
   Qed.
 
@@ -254,32 +262,51 @@ Proof.
   - congruence.
 Qed.
 
+Lemma cre_tame P v0 : cre_strict_prog P -> forall c t, P c = Some t -> tame P v0 t.
+Proof. intros Hs c t Hc. left. eapply Hs. exact Hc. Qed.
+
+Lemma strict_prog_cre P : strict_prog P -> cre_strict_prog P.
+Proof. intros Hs c t Hc. apply strict_cre_strict. eapply Hs. exact Hc. Qed.
+
+(* programs whose handlers never catch CircularRefError (they may catch any other error) *)
+Theorem sched_confluent_cre P s r1 r2 :
+  cre_strict_prog P -> wf_init P s -> complete_run P s r1 -> complete_run P s r2 ->
+  forall c, val r1 c = val r2 c.
+Proof.
+  intros Hs Hw H1 H2 c. pose proof (cre_tame P (val s) Hs) as Ht.
+  eapply consistent_unique; eapply final_consistent; eassumption.
+Qed.
+
+Theorem acyclic_cells_normal_cre P s r c n v :
+  cre_strict_prog P -> wf_init P s -> complete_run P s r ->
+  scr P (val s) n c = Some v -> val r c = v.
+Proof.
+  intros Hs Hw H1 Hn. pose proof (cre_tame P (val s) Hs) as Ht.
+  eapply consistent_unique; [eapply final_consistent; eassumption | left; exists n; exact Hn].
+Qed.
+
+Theorem reaches_cycle_error_cre P s r c :
+  cre_strict_prog P -> wf_init P s -> complete_run P s r ->
+  reaches_cycle P (val s) c -> val r c = VErr CircularRef.
+Proof.
+  intros Hs Hw H1 Hr. pose proof (cre_tame P (val s) Hs) as Ht.
+  eapply consistent_unique; [eapply final_consistent; eassumption | right; split; [reflexivity | exact Hr]].
+Qed.
+
 Theorem sched_confluent_strict P s r1 r2 :
   strict_prog P -> wf_init P s -> complete_run P s r1 -> complete_run P s r2 ->
   forall c, val r1 c = val r2 c.
-Proof.
-  intros Hs Hw H1 H2 c.
-  assert (Ht : forall c t, P c = Some t -> tame P (val s) t) by (intros x t Hx; left; eapply Hs; exact Hx).
-  eapply consistent_unique; eapply final_consistent; eassumption.
-Qed.
+Proof. intros Hs. apply sched_confluent_cre. apply strict_prog_cre. exact Hs. Qed.
 
 Theorem acyclic_cells_normal_strict P s r c n v :
   strict_prog P -> wf_init P s -> complete_run P s r ->
   scr P (val s) n c = Some v -> val r c = v.
-Proof.
-  intros Hs Hw H1 Hn.
-  assert (Ht : forall c t, P c = Some t -> tame P (val s) t) by (intros x t Hx; left; eapply Hs; exact Hx).
-  eapply consistent_unique; [eapply final_consistent; eassumption | left; exists n; exact Hn].
-Qed.
+Proof. intros Hs. apply acyclic_cells_normal_cre. apply strict_prog_cre. exact Hs. Qed.
 
 Theorem reaches_cycle_error_strict P s r c :
   strict_prog P -> wf_init P s -> complete_run P s r ->
   reaches_cycle P (val s) c -> val r c = VErr CircularRef.
-Proof.
-  intros Hs Hw H1 Hr.
-  assert (Ht : forall c t, P c = Some t -> tame P (val s) t) by (intros x t Hx; left; eapply Hs; exact Hx).
-  eapply consistent_unique; [eapply final_consistent; eassumption | right; split; [reflexivity | exact Hr]].
-Qed.
+Proof. intros Hs. apply reaches_cycle_error_cre. apply strict_prog_cre. exact Hs. Qed.
 
 Theorem cycle_cells_error_strict P s r c :
   strict_prog P -> wf_init P s -> complete_run P s r ->
@@ -348,10 +375,9 @@ Proof.
 Qed.
 
 Theorem not_reaching_cycle_normal P s r c :
-  strict_prog P -> wf_init P s -> complete_run P s r ->
+  cre_strict_prog P -> wf_init P s -> complete_run P s r ->
   ~ reaches_cycle P (val s) c -> exists n, scr P (val s) n c = Some (val r c).
 Proof.
-  intros Hs Hw H1 Hn.
-  assert (Ht : forall c t, P c = Some t -> tame P (val s) t) by (intros x t Hx; left; eapply Hs; exact Hx).
+  intros Hs Hw H1 Hn. pose proof (cre_tame P (val s) Hs) as Ht.
   destruct (final_consistent P s r c Ht Hw H1) as [H|[_ H]]; [exact H | contradiction].
 Qed.
